@@ -11,6 +11,81 @@ import zlib
 from datetime import datetime, timedelta, timezone
 
 
+def _bp():
+    import betterproto
+    return betterproto
+
+
+def scalar(pt, h):
+    if pt in ("int32", "sint32", "sfixed32"):
+        return (h % 4001) - 2000
+    if pt in ("int64", "sint64", "sfixed64"):
+        return (h % 10**12) - 5 * 10**11
+    if pt in ("uint32", "fixed32"):
+        return h % 2**32
+    if pt in ("uint64", "fixed64"):
+        return (h * 2654435761) % 2**64
+    if pt == "bool":
+        return h % 2 == 0
+    if pt in ("float", "double"):
+        return (h % 1000) / 8.0
+    if pt == "string":
+        return "s%d" % (h % 97)
+    if pt == "bytes":
+        return bytes([h % 256, (h >> 8) % 256])
+    raise KeyError(pt)
+
+def value(cls, f, md, hint, h, depth):
+    origin = typing.get_origin(hint)
+    args = [a for a in typing.get_args(hint) if a is not type(None)]
+    if md.proto_type == "map":
+        kt, vt = md.map_types
+        key = scalar(kt, h)
+        if vt in ("message", "enum"):
+            return None
+        return {key: scalar(vt, h + 1)}
+    if origin is list:
+        inner = args[0]
+        xs = [single(md, inner, h + i, depth) for i in range(2)]
+        return [x for x in xs if x is not None]
+    if origin is not None and args:
+        return single(md, args[0], h, depth)
+    return single(md, hint, h, depth)
+
+def single(md, t, h, depth):
+    if md.proto_type == "enum":
+        members = list(t)
+        return members[h % len(members)]
+    if md.proto_type == "message":
+        if t is datetime:
+            return datetime(2001, 2, 3, 4, 5, 6, tzinfo=timezone.utc) + timedelta(seconds=h % 1000)
+        if t is timedelta:
+            return timedelta(seconds=h % 1000, microseconds=1000 * (h % 7))
+        if md.wraps:
+            return scalar(md.wraps, h)
+        if depth > 1 or not dataclasses.is_dataclass(t):
+            return None
+        return build(t, depth + 1)
+    return scalar(md.proto_type, h)
+
+def build(cls, depth=0, salt=""):
+    hints = typing.get_type_hints(cls, vars(sys.modules[cls.__module__]), {})
+    kw = {}
+    groups = set()
+    for f in dataclasses.fields(cls):
+        md = _bp().FieldMetadata.get(f)
+        h = zlib.crc32(("%s.%d%s" % (cls.__name__.lower(), md.number, salt)).encode())
+        if md.group:
+            if md.group in groups:
+                continue
+            groups.add(md.group)
+        v = value(cls, f, md, hints[f.name], h, depth)
+        if v is not None:
+            kw[f.name] = v
+    return cls(**kw)
+
+
+
 def main(root, repo_src):
     sys.path.insert(0, repo_src)
     sys.path.insert(0, root)
@@ -23,74 +98,6 @@ def main(root, repo_src):
         if hasattr(mod, "__path__"):
             for m in pkgutil.iter_modules(mod.__path__):
                 yield from walk(pkgname + "." + m.name)
-
-    def scalar(pt, h):
-        if pt in ("int32", "sint32", "sfixed32"):
-            return (h % 4001) - 2000
-        if pt in ("int64", "sint64", "sfixed64"):
-            return (h % 10**12) - 5 * 10**11
-        if pt in ("uint32", "fixed32"):
-            return h % 2**32
-        if pt in ("uint64", "fixed64"):
-            return (h * 2654435761) % 2**64
-        if pt == "bool":
-            return h % 2 == 0
-        if pt in ("float", "double"):
-            return (h % 1000) / 8.0
-        if pt == "string":
-            return "s%d" % (h % 97)
-        if pt == "bytes":
-            return bytes([h % 256, (h >> 8) % 256])
-        raise KeyError(pt)
-
-    def value(cls, f, md, hint, h, depth):
-        origin = typing.get_origin(hint)
-        args = [a for a in typing.get_args(hint) if a is not type(None)]
-        if md.proto_type == "map":
-            kt, vt = md.map_types
-            key = scalar(kt, h)
-            if vt in ("message", "enum"):
-                return None
-            return {key: scalar(vt, h + 1)}
-        if origin is list:
-            inner = args[0]
-            xs = [single(md, inner, h + i, depth) for i in range(2)]
-            return [x for x in xs if x is not None]
-        if origin is not None and args:
-            return single(md, args[0], h, depth)
-        return single(md, hint, h, depth)
-
-    def single(md, t, h, depth):
-        if md.proto_type == "enum":
-            members = list(t)
-            return members[h % len(members)]
-        if md.proto_type == "message":
-            if t is datetime:
-                return datetime(2001, 2, 3, 4, 5, 6, tzinfo=timezone.utc) + timedelta(seconds=h % 1000)
-            if t is timedelta:
-                return timedelta(seconds=h % 1000, microseconds=1000 * (h % 7))
-            if md.wraps:
-                return scalar(md.wraps, h)
-            if depth > 1 or not dataclasses.is_dataclass(t):
-                return None
-            return build(t, depth + 1)
-        return scalar(md.proto_type, h)
-
-    def build(cls, depth=0):
-        hints = typing.get_type_hints(cls, vars(sys.modules[cls.__module__]), {})
-        kw = {}
-        groups = set()
-        for f in dataclasses.fields(cls):
-            md = betterproto.FieldMetadata.get(f)
-            h = zlib.crc32(("%s.%d" % (cls.__name__.lower(), md.number)).encode())
-            if md.group:
-                if md.group in groups:
-                    continue
-                groups.add(md.group)
-            v = value(cls, f, md, hints[f.name], h, depth)
-            if v is not None:
-                kw[f.name] = v
-        return cls(**kw)
 
     try:
         for name, mod in walk("gen"):
